@@ -168,6 +168,18 @@ def _outputs(res: C.Result, deep: bool):
             nm = ("LONG_NAME_%02d_" % ln + "X" * ln)[:ln]
             tree["files"][tree["root"]]["defs"].append(
                 {"kind": "m", "name": nm, "id": mid, "fields": None if j % 2 else [["v", "int32"]]})
+        # names that contain the back ends' own table prefixes (at the start and in the middle, both cases), each next to
+        # the definition that carries the name with the prefix taken out: every message must have its OWN entry in every
+        # output, with its own hash — not another definition's, not filed under a shortened name
+        j = 0
+        for pi, pre in enumerate(H.TABLE_PREFIXES):
+            for nm, other in ((f"{pre}ZQ{k}x{pi}A", f"ZQ{k}x{pi}A"), (f"Re{pre}ZR{k}x{pi}", f"ReZR{k}x{pi}")):
+                for name in ((other, nm) if (k + j) % 2 == 0 else (nm, other)):      # either definition order
+                    mid = next(i for i in range(8300 + 40 * k + j, 9999) if i not in used_ids)
+                    used_ids.add(mid)
+                    tree["files"][tree["root"]]["defs"].append(
+                        {"kind": "m", "name": name, "id": mid, "fields": None if j % 3 == 0 else [["v", "int32"]]})
+                    j += 1
         names = [d["name"] for f in tree["files"] for d in f["defs"] if d["kind"] == "m"]
         try:
             got = H.outputs_check(tree, names)
@@ -221,6 +233,8 @@ def _outputs(res: C.Result, deep: bool):
             res.failures.append(C.Failure(clause=cl, case=case, detail=f"{nme}: {cl} (Spec judgeOutputs on {g})"))
     ex["outputs_agreeing"] = langs
     ex["outputs_trees"] = n
+    if sum(ex.get("outputs_skipped", {}).values()) >= n:
+        raise C.MachineryError(f"the outputs check ran on none of its {n} trees: {ex.get('outputs_skipped')}")
 
 
 def _outputs_driver(tree, names, got, prefix: str) -> Dict[str, Dict[str, Any]]:
